@@ -122,7 +122,7 @@ func TestC19Cdi(t *testing.T) {
 	rapid.Check(t, func(t *rapid.T) {
 		root := sc.dir()
 		defer os.RemoveAll(root)
-		l := layout.Generate(t, root, layout.Options{NoMissing: true, SimpleSpell: true, NoRepeat: true, MaxFiles: 3})
+		l := layout.Generate(t, root, layout.Options{NoMissing: true, SimpleSpell: true, NoRepeat: true, MaxFiles: 3, Edits: c02Edits})
 		if len(l.Slots) == 0 {
 			l.Slots, l.Spelling = []int{0}, []string{l.Path(0)}
 		}
@@ -140,6 +140,7 @@ func TestC19Cdi(t *testing.T) {
 		}
 		lib, _ := cdi.NewCache(cdi.WithSpecDirs(dirs...))
 		defer lib.Configure(cdi.WithAutoRefresh(false))
+		undecidedIfNoInotify(t, lib)
 		libErrs := lib.GetErrors()
 		var errKeys []string
 		for k := range libErrs {
@@ -186,6 +187,9 @@ func TestC19Cdi(t *testing.T) {
 			}
 			full := append(append([]string{}, dirArgs...), args...)
 			res := runTool(bin, nil, full...)
+			if strings.Contains(res.stdout, "failed to create watcher") {
+				t.Fatalf("VERIF-UNDECIDED the cdi tool could not create its watcher: no inotify instance left in this environment")
+			}
 			c := c19Case{Layout: l.Describe(), Args: full, Schema: schemaName}
 			fail := func(msg string) {
 				t.Fatalf("C19 violated: %s\ncommand: cdi %s\nexit status %d\nstdout:\n%s\nstderr:\n%s\nlibrary errors: %v\nlayout: %s", msg, strings.Join(full, " "), res.code, clip(res.stdout, 3000), clip(res.stderr, 500), errKeys, canonJSON(l.Describe()))
